@@ -69,9 +69,17 @@ type Timer struct {
 	h    interface{}
 }
 
+// SpawnHook, when set (by the scheduler), runs AfterFunc callbacks in their own
+// managed thread; otherwise they run on the goroutine that moved the clock.
+var SpawnHook func(f func())
+
 func (t *Timer) fire() {
 	if t.f != nil {
-		t.f()
+		if h := SpawnHook; h != nil {
+			h(t.f)
+		} else {
+			t.f()
+		}
 		return
 	}
 	select {
